@@ -58,6 +58,10 @@ def checkPredF (ty : String) (msgs out : List (Nat × Float)) : Option String :=
       let v := o.2
       if v.isNaN then some "NaN-message"
       else if th v.abs > th (minOthers msgs i) + tol then some "magnitude-exceeds-smallest-other"
+      -- the same clause in the LLR domain, where tanh is flat (|x| beyond ~25): an infinite or wildly too large message among finite
+      -- inputs; the slack covers the ill-conditioning of 2·atanh near saturation (error ~ u·e^|out|)
+      else if (minOthers msgs i).isFinite && (!v.isFinite || v.abs > 2 * (minOthers msgs i) + 2) then
+        some s!"magnitude-far-above-smallest-other-in-the-LLR-domain got={v} smallest-other={minOthers msgs i}"
       else if th v.abs > tol && (v < 0) != par && prod > tol then some "sign-is-not-product-of-other-signs"
       else if fam == "phi" || fam == "tanh" || (fam == "amin" && op.2 == 0) then
         (if (th v.abs - prod).abs > tol then some s!"not-the-exact-box-plus tanh-domain got={th v.abs} want={prod}" else none)
